@@ -2,9 +2,9 @@ package main
 
 import (
 	"fmt"
-	"os"
 	"go/token"
 	"go/types"
+	"os"
 	"strings"
 
 	"golang.org/x/tools/go/ssa"
@@ -716,11 +716,11 @@ func (ai *AI) lenFact(v ssa.Value, iv *AV, s *aiState) {
 // calls
 
 var nilSafeMethods = map[string]string{
-	"AsDuration": "(*durationpb.Duration).AsDuration returns 0 for a nil receiver",
-	"AsTime":     "(*timestamppb.Timestamp).AsTime returns the Unix epoch for a nil receiver",
-	"CheckValid": "protobuf well-known types: CheckValid reports an error for a nil receiver",
-	"IsValid":    "protobuf well-known types: IsValid is false for a nil receiver",
-	"String":     "protobuf generated String() is nil-safe",
+	"AsDuration":   "(*durationpb.Duration).AsDuration returns 0 for a nil receiver",
+	"AsTime":       "(*timestamppb.Timestamp).AsTime returns the Unix epoch for a nil receiver",
+	"CheckValid":   "protobuf well-known types: CheckValid reports an error for a nil receiver",
+	"IsValid":      "protobuf well-known types: IsValid is false for a nil receiver",
+	"String":       "protobuf generated String() is nil-safe",
 	"ProtoReflect": "nil-safe by construction",
 }
 
@@ -1099,8 +1099,8 @@ func (ai *AI) inline(cal *ssa.Function, call *ssa.Call, args []*AV, s *aiState) 
 type outcome struct {
 	val    *AV
 	cal    *ssa.Function
-	params map[int]*AV       // refined facts about non-pointer arguments, by parameter index
-	mem    map[string]*AV    // refined facts about memory reached through pointer arguments (caller's keys)
+	params map[int]*AV    // refined facts about non-pointer arguments, by parameter index
+	mem    map[string]*AV // refined facts about memory reached through pointer arguments (caller's keys)
 }
 
 func (ai *AI) applyOutcome(call *ssa.Call, o outcome, s *aiState) {
